@@ -19,6 +19,8 @@ pub enum Stmt {
     Raise(u8),
     /// block USR1+USR2, raise both, unblock (two signals pending at once)
     RaiseBurst,
+    /// nanosleep for the given number of milliseconds (keeps a detached process observable)
+    Sleep(u8),
 }
 
 impl Stmt {
@@ -33,6 +35,7 @@ impl Stmt {
             Stmt::Rec(n) => format!("r{n}"),
             Stmt::Raise(n) => format!("s{n}"),
             Stmt::RaiseBurst => "sb".into(),
+            Stmt::Sleep(n) => format!("z{n}"),
         }
     }
 }
@@ -346,6 +349,12 @@ pub fn generate(name: &str, body: &[Stmt]) -> Program {
                 s.l("    a += 1;", Some(&m("pre")));
                 s.l(&format!("    raise({sig});"), Some(&m("raise")));
                 s.l("    a += 2;", Some(&m("post")));
+            }
+            Stmt::Sleep(ms) => {
+                s.l("    a += 5;", Some(&m("presleep")));
+                s.l(&format!("    let ts: [u64; 2] = [0, {} * 1_000_000];", ms), None);
+                s.l("    unsafe { core::arch::asm!(\"syscall\", inlateout(\"rax\") 35isize => _, in(\"rdi\") ts.as_ptr(), in(\"rsi\") 0usize, out(\"rcx\") _, out(\"r11\") _, options(nostack)); }", Some(&m("sleep")));
+                s.l("    a += 6;", Some(&m("postsleep")));
             }
             Stmt::RaiseBurst => {
                 s.l("    sigmask(0, (1 << 9) | (1 << 11));", Some(&m("block")));
